@@ -80,6 +80,13 @@ func (fv *FV) hasType(v Term, t types.Type) Term {
 
 // typeFacts is emitted at print time: implements-facts and kinds for all known type ids.
 func (fv *FV) typeFacts() string {
+	if fv.typeFactsDone {
+		return fv.typeFactsCache
+	}
+	return fv.typeFactsCompute()
+}
+
+func (fv *FV) typeFactsCompute() string {
 	var sb strings.Builder
 	if fv.usesEvalPhase {
 		if funcPkgName(fv.fn) == "parser" {
